@@ -103,7 +103,7 @@ func cmdWireCases(args []string) error {
 			ev = map[string]interface{}{"ev": "small", "panics": panics, "msg": msg}
 		case "err":
 			ev = recwire.ErrorRoundTrip(c)
-		case "txn-direct", "txn-server", "mon-monitor", "mon-monitor_cond", "mon-monitor_cond_since", "notif-update", "notif-update2", "notif-update3":
+		case "txn-direct", "txn-server", "mon-monitor", "mon-monitor_cond", "mon-monitor_cond_since", "notif-update", "notif-update2", "notif-update3", "reply-monitor", "reply-monitor_cond", "reply-monitor_cond_since":
 			if runner == nil {
 				dir, err := os.MkdirTemp("", "vh-sock")
 				if err != nil {
@@ -121,6 +121,11 @@ func cmdWireCases(args []string) error {
 			}
 			if c.Mode == "txn-direct" {
 				ev = runner.Direct(c.Tree)
+			} else if strings.HasPrefix(c.Mode, "reply-") {
+				w.Flush()
+				_ = os.WriteFile(*out+".current", []byte(strconv.Itoa(id)), 0o644)
+				ev = runner.Reply(c.Tree, strings.TrimPrefix(c.Mode, "reply-"))
+				w.Flush()
 			} else if strings.HasPrefix(c.Mode, "notif-") {
 				// a panic in the client's notification handler ends this process: say which case is running
 				w.Flush()
@@ -146,7 +151,7 @@ func cmdWireCases(args []string) error {
 		if err := rec.Emit(ev); err != nil {
 			return err
 		}
-		if c.Mode == "txn-server" || strings.HasPrefix(c.Mode, "mon-") || strings.HasPrefix(c.Mode, "notif-") {
+		if c.Mode == "txn-server" || strings.HasPrefix(c.Mode, "mon-") || strings.HasPrefix(c.Mode, "notif-") || strings.HasPrefix(c.Mode, "reply-") {
 			w.Flush()
 		}
 	}
